@@ -11,7 +11,7 @@ get() { python3 -c "import json,sys; print(json.load(open('$d/meta.json'))['$1']
 demo_file=$(get demo_file); pkg=$(get demo_pkg_dir); run=$(get demo_run); mod=$(get module_dir)
 suite=$(python3 -c "import json; print(json.load(open('$d/meta.json')).get('suite_pkgs','./...'))")
 wt=/tmp/seedverify-$$
-git -C /repo worktree add -q "$wt" HEAD || exit 2
+git -C /repo worktree add -q "$wt" "${SEED_BASE:-HEAD}" || exit 2
 trap 'git -C /repo worktree remove --force "$wt" >/dev/null 2>&1' EXIT
 demo() { cp "$d/$demo_file" "$wt/$pkg/zz_seed_demo_test.go"; (cd "$wt/$pkg" && go test -mod=mod -vet=off -count=1 -run "$run" . >"$wt/demo.log" 2>&1); rc=$?; rm -f "$wt/$pkg/zz_seed_demo_test.go"; return $rc; }
 if demo; then echo "demo passes without the patch: ok"; else echo "FAIL: demo fails WITHOUT the patch"; tail -5 "$wt/demo.log"; exit 1; fi
